@@ -64,14 +64,13 @@ def filterSoma (t : Table) : Soma → Soma
   | s => s
 
 /-- The clean-up in `_subset_treeneuron` (every operation implemented through `subset_neuron`: cutting, twig /
-depth / longest-neurite pruning, fragments, `drop_fluff`, `cell_body_fiber`, …).  Lists and ids are
-treated as in `filterSoma`; a stored detection FUNCTION is neither `None` nor iterable, so the test
-`x._soma not in x.nodes.node_id.values` runs on the function object, is true, and the function is
-replaced by `None`: after such an operation the skeleton reports no soma at all (which satisfies "the
-reported soma exists" vacuously; the loss of the detection function is recorded in the C01 report as a
-defect outside this property). -/
+depth / longest-neurite pruning, fragments, `drop_fluff`, `cell_body_fiber`, …).  Its guard
+`x._soma is not None and not callable(x._soma)` leaves a stored detection function alone, lists and ids are
+treated exactly as in `filterSoma`.  (Until the repair recorded in the C01 findings the guard lacked the
+`callable` test: `<function> not in node_ids` is true, so a detection function was replaced by `None` and
+every subset-based operation lost the default soma detection.) -/
 def filterSomaSubset (t : Table) : Soma → Soma
-  | .detect => .none
+  | .detect => .detect
   | s => filterSoma t s
 
 /-- `new_nodes.node_id.values[ix]` for the nearest-neighbour index `ix = nn i` (cKDTree, external): some id
